@@ -1,6 +1,7 @@
 import H2T.Lemmas.WrapInv
 import H2T.Lemmas.WsCollapseBlock
 import H2T.Lemmas.CommentsDom
+import H2T.Lemmas.Transparent
 
 /-! # C13 — output does not depend on source formatting of collapsible whitespace
 
@@ -17,7 +18,11 @@ strikeout filter and the block-start logic) in the same state.  **Comments never
 deleting every comment node of a document, at any depth, gives the same render tree (`comments_never_reach_the_tree`:
 `:nth-child` positions count elements only) and therefore the same outcome of `renderDom` under every configuration,
 decorator, width and style sheet (`comments_do_not_matter`).  That a neutral `span` is handed to the renderer as a
-split text is decided by correspondence and the metamorphic oracle (with the two named exceptions of DESIGN §8 #12). -/
+split text is decided by correspondence and the metamorphic oracle (with the two named exceptions of DESIGN §8 #12).
+**Neutral wrappers are transparent**: an element that becomes an unstyled container (`span`, an unknown element, `a`
+without `href`) renders exactly as its children spliced into the parent's child list — at any depth, in table cells too,
+size estimates included (`unstyled_container_is_transparent`); the exceptions are structural and stated in `unwrapN`:
+directly under `ul`/`ol` every child is an item, and `sup` tests for a single text child (`sup_reads_its_child_list`). -/
 
 namespace H2T.C13
 
@@ -223,5 +228,36 @@ example : ({ width := 10 } : WB).addText .normal [] [] (strCh "a" ++ [spaceCh] +
   ws_runs_do_not_matter _ _ _ _ _ _ _ (by simp) (by simp) (by decide) (by decide)
 example : stripList [.comment, .text (strCh "a"), .comment, .elem "p" true [] [.comment, .text (strCh "b")]] =
     [.text (strCh "a"), .elem "p" true [] [.text (strCh "b")]] := by simp [stripList]
+
+/-! ## neutral wrappers -/
+
+/-- a `span` (like every unknown element) with content becomes a container carrying only its computed style -/
+theorem span_becomes_container (computed : Css.Computed) (attrs : List (String × List Ch)) (cs : List RNode) (h : cs ≠ []) :
+    elemBase computed true "span" attrs cs = some (.box (styleOf computed) .container cs) := by
+  cases cs with
+  | nil => exact absurd rfl h
+  | cons c cs => simp [elemBase]
+
+/-- **an unstyled container is transparent**: the rendering of a tree equals the rendering of the tree with every unstyled
+    container replaced by its children (`unwrapN`: everywhere except directly under `ul`/`ol`/`sup`), for every
+    configuration, decorator and width — inside table cells too, where the size estimates are unchanged as well -/
+theorem unstyled_container_is_transparent (cfg : Cfg) (d : Deco) (w : Nat) (tree : RNode) :
+    renderTree cfg d w (unwrapN tree) = renderTree cfg d w tree := renderTree_unwrap cfg d w tree
+
+/-- the same for the size estimate a table uses to allocate its columns -/
+theorem unstyled_container_keeps_estimates (d : Deco) (m : Nat) (tree : RNode) :
+    sizeOf d m (unwrapN tree) = sizeOf d m tree := sizeOf_unwrapN d m tree
+
+/-- instance: `a<span>b</span>` inside a paragraph is the paragraph with the two texts side by side -/
+example (cfg : Cfg) (d : Deco) (w : Nat) (a b : List Ch) :
+    renderTree cfg d w (.box {} .block [.text {} a, .box {} .container [.text {} b]]) =
+    renderTree cfg d w (.box {} .block [.text {} a, .text {} b]) := by
+  have := unstyled_container_is_transparent cfg d w (.box {} .block [.text {} a, .box {} .container [.text {} b]])
+  simpa [unwrapN, unwrapL] using this.symm
+
+/-- why `sup` is excluded: it tests its child list for a single text of digits -/
+theorem sup_reads_its_child_list :
+    supDigits [.box {} .container [.text {} [mkCh 50]]] = none ∧ supDigits [.text {} [mkCh 50]] = some [mkCh 0xb2] := by
+  constructor <;> decide
 
 end H2T.C13
